@@ -157,6 +157,10 @@ def record(ck, mode, n, thorough=False, extra=None, timeout=3000):
     for s in summ.get('samples', [])[:2]:
         ck.sample({'record_run': s})
     for v in viols:
+        if v['bad'].endswith('_after_retry') and ck.pid != 'C17':
+            # lifecycle clause of C17 observed in a fault run of another property's driver: decided by C17 only
+            ck.notes.append('C17 clause %s observed in mode %s (decided by the C17 check)' % (v['bad'], mode))
+            continue
         desc = json.loads(v['run'].get('desc', '{}'))
         w = desc.get('w', {})
         ck.violation({'kind': 'record', 'pred': v['bad'], 'mode': mode, 'transform': w.get('transform'), 'entropy': w.get('entropy'),
